@@ -251,7 +251,16 @@ func commitTempBranch(
 	primaryKey []string, quiet bool, delim rune,
 ) (sum []byte, err error) {
 	ref.DeleteHead(rs, tmpBranch)
-	return commit(cmd, db, rs, csvFilePath, filepath.Base(csvFilePath), tmpBranch, primaryKey, c, quiet, nil, delim)
+	return commit(cmd, db, rs, csvFilePath, tempCommitMessage(csvFilePath), tmpBranch, primaryKey, c, quiet, nil, delim)
+}
+
+// tempCommitMessage names the file a cached temporary commit was made from. The whole path, not
+// the base name: branch.file may be pointed at another file of the same name.
+func tempCommitMessage(csvFilePath string) string {
+	if p, err := filepath.Abs(csvFilePath); err == nil {
+		return p
+	}
+	return csvFilePath
 }
 
 func getCommitTable(db objects.Store, rs ref.Store, branch string) (com *objects.Commit, tbl *objects.Table, err error) {
@@ -298,7 +307,7 @@ func ensureTempCommit(
 	if err != nil {
 		return nil, err
 	}
-	if com.Message != fd.Name() || com.Time.Before(fd.ModTime()) || !slice.StringSliceEqual(tbl.PrimaryKey(), primaryKey) {
+	if com.Message != tempCommitMessage(csvFilePath) || com.Time.Before(fd.ModTime()) || !slice.StringSliceEqual(tbl.PrimaryKey(), primaryKey) {
 		sum, err = commitTempBranch(cmd, db, rs, c, tmpBranch, csvFilePath, primaryKey, quiet, delim)
 		if err != nil {
 			return nil, err
